@@ -113,7 +113,7 @@ theorem add_neg (a d x y : F) (h : OnC a d x y) (hD : 1 - d * x * (-x) * y * y â
     rw [this, zero_div]
   Â· rw [div_eq_one_iff_eq hD]; linear_combination h
 
-theorem add_comm' (a d x1 y1 x2 y2 : F) :
+theorem add_comm_law (a d x1 y1 x2 y2 : F) :
     addX d x1 y1 x2 y2 = addX d x2 y2 x1 y1 âˆ§ addY a d x1 y1 x2 y2 = addY a d x2 y2 x1 y1 := by
   unfold addX addY
   constructor
